@@ -2,18 +2,19 @@
 # Re-run every recorded seeded change against the current checks: one scratch worktree per change (under /tmp,
 # removed afterwards), patch applied there, the property's own check run with VERIF_REPO=<worktree>.
 # usage: replay_seeded.sh [ids...]   (default: all of seeded/*) ; prints "<id> detected|MISSED|patch-failed"
-cd /verif
+V=$(cd $(dirname $0)/.. && pwd)
+cd $V
 ids="$@"; [ -z "$ids" ] && ids=$(ls seeded | grep -v REPLAY)
 for id in $ids; do
   pid=${id%%-*}
   wt=/tmp/replay_$id
   git -C /repo worktree add --detach $wt HEAD >/dev/null 2>&1
-  if git -C $wt apply /verif/seeded/$id/patch.diff 2>/dev/null; then
+  if git -C $wt apply $V/seeded/$id/patch.diff 2>/dev/null; then
     out=$(VERIF_REPO=$wt ./check $pid 2>&1 | grep -E "^VIOLATION|^HARNESS")
     extra=""
     if [ -z "$out" ]; then
       # some changes are caught by a neighbouring property's check (recorded in meta.json)
-      for other in $(python3 -c "import json,re;m=json.load(open('/verif/seeded/$id/meta.json'));print(' '.join(sorted(set(re.findall(r'C\d\d',' '.join(m['caught_by'])))-{'$pid'})))"); do
+      for other in $(python3 -c "import json,re;m=json.load(open('$V/seeded/$id/meta.json'));print(' '.join(sorted(set(re.findall(r'C\d\d',' '.join(m['caught_by'])))-{'$pid'})))"); do
         o2=$(VERIF_REPO=$wt ./check $other 2>&1 | grep -E "^VIOLATION")
         [ -n "$o2" ] && extra="$extra $other"
       done
